@@ -63,7 +63,7 @@ class EffectMixin:
             raise Unsupported("method {} of the {} object is neither a primitive nor translated".format(name, et.name))
         return self.effect_procedure(variants, key, v, target, env, nxt)
 
-    def bind_args(self, params, defaults, v, env, k, vararg=None):
+    def bind_args(self, params, defaults, v, env, k, vararg=None, nested_lits=False):
         """evaluate the arguments of a call against (name, type) parameters; k(list of Lean codes)"""
         names = [p for p, _ in params]
         given = {}
@@ -91,20 +91,29 @@ class EffectMixin:
                 raise Unsupported("missing argument {} in {}".format(p, src(v)))
             todo.append((p, t, node))
 
-        def go(i, acc):
-            if i == len(todo):
+        # the arguments are evaluated first (left to right); what the callee then does with an argument of the wrong
+        # shape (a scalar where a sequence is expected: TypeError; a sequence among the literals: ValueError of the
+        # checked builder methods) comes after all of them
+        def late(j, vals, acc):
+            if j == len(vals):
                 return k(acc, given)
+            c, tc, tt = vals[j]
+            if isinstance(tt, TList) and isinstance(tc, (TUnion, TOpt)):
+                return self.as_list(c, tc, lambda l, el: late(j, vals[:j] + [(l, TList(el), tt)] + vals[j + 1:], acc))
+            if isinstance(tt, TList) and isinstance(resolve(tt.elem), TInt) and isinstance(tc, TList) \
+                    and isinstance(resolve(tc.elem), TUnion) and isinstance(resolve(resolve(tc.elem).a), TInt):
+                if not nested_lits:
+                    raise Unsupported("a scalar-or-sequence entry in a list of literals: " + src(v))
+                return self.bind("PyF.lits {}".format(paren(c)), tt, lambda l, _t: late(j + 1, vals, acc + [l]), "ls")
+            return late(j + 1, vals, acc + [coerce(c, tc, tt)])
+
+        def go(i, vals):
+            if i == len(todo):
+                return late(0, vals, [])
             p, t, node = todo[i]
             if not isinstance(node, ast.AST):                  # a python constant default
                 node = ast.Constant(value=node)
-
-            def with_val(c, tc):
-                tc = resolve(tc)
-                tt = resolve(t)
-                if isinstance(tt, TList) and isinstance(tc, (TUnion, TOpt)):
-                    return self.as_list(c, tc, lambda l, el: go(i + 1, acc + [coerce(l, TList(el), tt)]))
-                return go(i + 1, acc + [coerce(c, tc, tt)])
-            return self.expr(node, env, with_val)
+            return self.expr(node, env, lambda c, tc: go(i + 1, vals + [(c, resolve(tc), resolve(t))]))
         return go(0, [])
 
     def effect_primitive(self, prim, key, v, target, env, nxt):
@@ -132,7 +141,12 @@ class EffectMixin:
                 return self.bind(call, env[key][1], after, self.lname(key))
             nm = self.lname(key)
             return "let {} := {}\n{}".format(nm, call, after(nm, None))
-        return self.bind_args(params, defaults, v, env, fin)
+        # `check=True` (constant or default): an entry of the literal list that is itself a list is a ValueError
+        chk = [kw.value for kw in v.keywords if kw.arg == "check"]
+        checked = prim.get("nested_valueerror", False) and (
+            (not chk and defaults.get("check") is True and len(v.args) < 1 + [p for p, _ in params].index("check"))
+            or (chk and isinstance(chk[0], ast.Constant) and chk[0].value is True))
+        return self.bind_args(params, defaults, v, env, fin, nested_lits=checked)
 
     def effect_procedure(self, variants, key, v, target, env, nxt):
         """a translated procedure whose `self` is the effect object; the variant is chosen by the argument types"""
